@@ -30,6 +30,13 @@ using mp::Cast;
 
 namespace {
 
+/// Compares two constants bitwise, so that Equal is reflexive even for NaN
+/// and equal constants always have the same std::hash value.
+template <typename T>
+inline bool SameConstant(T a, T b) {
+  return std::memcmp(&a, &b, sizeof(T)) == 0;
+}
+
 /// Compares expressions for equality.
 class ExprComparator : public mp::ExprVisitor<ExprComparator, bool> {
  private:
@@ -39,7 +46,9 @@ class ExprComparator : public mp::ExprVisitor<ExprComparator, bool> {
   explicit ExprComparator(Expr e) : expr_(e) {}
 
   template <typename T>
-  bool VisitNumericConstant(T c) { return Cast<T>(expr_).value() == c.value(); }
+  bool VisitNumericConstant(T c) {
+    return SameConstant(Cast<T>(expr_).value(), c.value());
+  }
 
   bool VisitVariable(Variable v) {
     return Cast<Variable>(expr_).index() == v.index();
@@ -105,10 +114,11 @@ bool ExprComparator::VisitPLTerm(PLTerm e) {
   if (num_breakpoints != e.num_breakpoints())
     return false;
   for (int i = 0; i < num_breakpoints; ++i) {
-    if (pl.slope(i) != e.slope(i) || pl.breakpoint(i) != e.breakpoint(i))
+    if (!SameConstant(pl.slope(i), e.slope(i)) ||
+        !SameConstant(pl.breakpoint(i), e.breakpoint(i)))
       return false;
   }
-  return pl.slope(num_breakpoints) == e.slope(num_breakpoints) &&
+  return SameConstant(pl.slope(num_breakpoints), e.slope(num_breakpoints)) &&
          Equal(pl.arg(), e.arg());
 }
 
